@@ -325,12 +325,17 @@ func (f *OrefaFile) ReadDir(n int) ([]fs.DirEntry, error) {
 		de := nd.dirEntries()
 		nd.mu.RUnlock()
 
-		f.dirIndex = 0
-
 		if n <= 0 {
+			f.dirIndex = 0
 			f.dirEntries = nil
+			f.dirNames = nil
 
 			return de, nil
+		}
+
+		if f.dirNames == nil {
+			// no batch read is in progress through Readdirnames, which shares the position in the directory.
+			f.dirIndex = 0
 		}
 
 		f.dirEntries = de
@@ -340,6 +345,7 @@ func (f *OrefaFile) ReadDir(n int) ([]fs.DirEntry, error) {
 	if start >= len(f.dirEntries) {
 		f.dirIndex = 0
 		f.dirEntries = nil
+		f.dirNames = nil
 
 		return nil, io.EOF
 	}
@@ -404,12 +410,17 @@ func (f *OrefaFile) Readdirnames(n int) (names []string, err error) {
 		names = nd.dirNames()
 		nd.mu.RUnlock()
 
-		f.dirIndex = 0
-
 		if n <= 0 {
+			f.dirIndex = 0
+			f.dirEntries = nil
 			f.dirNames = nil
 
 			return names, nil
+		}
+
+		if f.dirEntries == nil {
+			// no batch read is in progress through ReadDir, which shares the position in the directory.
+			f.dirIndex = 0
 		}
 
 		f.dirNames = names
@@ -418,6 +429,7 @@ func (f *OrefaFile) Readdirnames(n int) (names []string, err error) {
 	start := f.dirIndex
 	if start >= len(f.dirNames) {
 		f.dirIndex = 0
+		f.dirEntries = nil
 		f.dirNames = nil
 
 		return nil, io.EOF
